@@ -207,6 +207,73 @@ def reload_stratum(chk):
                         break
     chk.extra.setdefault("strata_extra", {})["disabled_reload_cases"] = n
     model_replaced_stratum(chk)
+    text_values_stratum(chk)
+
+
+def text_values_stratum(chk):
+    """request and rule values are arbitrary TEXT: a value may contain ', ' (so that two different requests render to the same
+    line), '%', braces, quotes or blanks.  Each request - alone, through enforce_ex, and inside one batch_enforce with the
+    others - is decided by the rules whose fields EQUAL its values (plain equality matcher), under every documented effect."""
+    import casbin
+    from ..enforce_cases import MODEL, PLAIN_MATCHER
+    rules = [["alice", "data1, read", "read", "allow", "t0"], ["bob", "100%", "read", "deny", "t1"], ["carol", "%s", "write", "allow", "t2"],
+             ["a%20b", "data1", "read", "allow", "t3"], ["alice", "data1", "read, read", "deny", "t4"], ["d{0}", "x'y", 'q"r', "allow", "t5"]]
+    reqs = [["alice", "data1, read", "read"], ["alice", "data1", "read, read"], ["alice, data1", "read", "read"], ["bob", "100%", "read"],
+            ["carol", "%s", "write"], ["carol", "%d", "write"], ["a%20b", "data1", "read"], ["d{0}", "x'y", 'q"r'], ["alice", "data1, read"],
+            ["alice", "data1", "read"]]
+    n = 0
+    for effect, eidx in EFFECTS:
+        if effect.startswith("subjectPriority"):
+            continue
+        m_text = MODEL.format(pdef="sub, obj, act, eft, tag", effect=effect, e2="", matcher=PLAIN_MATCHER)
+        for cls in (casbin.Enforcer, casbin.SyncedEnforcer, casbin.FastEnforcer):
+            e = cls(casbin.Enforcer.new_model(text=m_text))
+            for r in rules:
+                e.add_policy(*r)
+
+            def want(req):
+                if len(req) != 3:
+                    return "raise"
+                outs = [r[3] for r in rules if r[:3] == req]
+                if eidx == 0:
+                    return "allow" in outs
+                if eidx == 1:
+                    return "deny" not in outs
+                if eidx == 2:
+                    return "allow" in outs and "deny" not in outs
+                for x in outs:
+                    if x in ("allow", "deny"):
+                        return x == "allow"
+                return False
+
+            def ask(f):
+                try:
+                    return f()
+                except Exception:  # noqa
+                    return "raise"
+
+            exp = [want(r) for r in reqs]
+            for i, req in enumerate(reqs):
+                n += 1
+                chk.count(("text-values", eidx, cls.__name__, i))
+                got = ask(lambda: bool(e.enforce(*req)))
+                got2 = ask(lambda: bool(e.enforce_ex(*req)[0]))
+                if got != exp[i] or got2 != exp[i]:
+                    chk.spec_fail(dict(stratum="text-values", effect=effect, enforcer=cls.__name__, rules=rules, request=req),
+                                  dict(enforce=got, enforce_ex=got2), exp[i],
+                                  "the decision is not the effect combination of the rules whose fields equal the request values")
+                    chk.extra.setdefault("strata_extra", {})["text_values_cases"] = n
+                    return
+            ok = [r for r in reqs if len(r) == 3]
+            gotb = ask(lambda: [bool(x) for x in e.batch_enforce(ok)])
+            wantb = [want(r) for r in ok]
+            n += 1
+            if gotb != wantb:
+                chk.spec_fail(dict(stratum="text-values", effect=effect, enforcer=cls.__name__, rules=rules, batch=ok), gotb, wantb,
+                              "batch_enforce does not decide each request of the batch like enforce does")
+                chk.extra.setdefault("strata_extra", {})["text_values_cases"] = n
+                return
+    chk.extra.setdefault("strata_extra", {})["text_values_cases"] = n
 
 
 def model_replaced_stratum(chk):
@@ -243,13 +310,17 @@ def model_replaced_stratum(chk):
                         continue
                     t1 = MODEL.format(pdef="sub, obj, act, eft, tag", effect=e1, e2="", matcher=PLAIN_MATCHER)
                     t2 = MODEL.format(pdef="sub, obj, act, eft, tag", effect=e2, e2="", matcher=PLAIN_MATCHER)
-                    for how in ("set_model", "load_model"):
+                    for how in ("set_model", "load_model", "set_effector"):
                         mp = os.path.join(d, "model.conf")
                         with open(mp, "w") as f:
                             f.write(t1)
                         e = casbin.Enforcer(mp, pol)
                         ask(e)                                    # the enforcer has decided under the first model
-                        if how == "set_model":
+                        if how == "set_effector":
+                            # the effect in force is the one the application installed (an effector for the second expression)
+                            from casbin.effect import get_effector
+                            e.set_effector(get_effector(e2))
+                        elif how == "set_model":
                             e.set_model(casbin.Enforcer.new_model(text=t2))
                         else:
                             with open(mp, "w") as f:
@@ -615,10 +686,10 @@ def replay(chk, explain):
             sys.exit(1)
         print("replay passes: implementation agrees with the spec on every ask of this history")
         sys.exit(0)
-    if c.get("stratum") in ("model-replaced", "disabled-survives-reload"):
+    if c.get("stratum") in ("model-replaced", "disabled-survives-reload", "text-values"):
         # these strata are cheap and deterministic: re-run them and report what they report
         chk.spec_failures = []
-        (model_replaced_stratum if c["stratum"] == "model-replaced" else reload_stratum)(chk)
+        dict([("model-replaced", model_replaced_stratum), ("disabled-survives-reload", reload_stratum), ("text-values", text_values_stratum)])[c["stratum"]](chk)
         hit = [f for f in chk.spec_failures if f["case"].get("stratum") == c["stratum"]]
         if hit:
             print("replay:", json.dumps(hit[0])[:700])
